@@ -14,7 +14,7 @@
 (***************************************************************************)
 EXTENDS Kabsch, TLC
 
-CONSTANTS HMax, NetMax, SMax
+CONSTANTS HMax, NetMax, SMax, Emit
 
 Net == RotNet(NetMax)
 ASSUME NetIsRotations == \A r \in Net : IsRotation(r)
@@ -36,7 +36,11 @@ PickV == phase = "start" /\ \E v \in SignedPerms : V' = v /\ phase' = "v" /\ UNC
 PickSVD == /\ phase = "v"
            /\ \E w \in SignedPerms : \E s \in Sorted : W' = w /\ H' = FromSVD(V, s, w)
            /\ phase' = "svd" /\ UNCHANGED <<r, V>>
-Align == phase = "svd" /\ r' = [n |-> KabschStep(V, W), d |-> 1] /\ phase' = "aligned" /\ UNCHANGED <<H, V, W>>
+(* spec -> code: with Emit every covariance matrix of part (b) is printed; the harness      *)
+(* realises it as the point sets A = unit vectors, B = rows of H (so that A^T B = H) and    *)
+(* drives the real kabsch_rotation_matrix on it (degenerate and zero singular values).      *)
+Align == /\ phase = "svd" /\ r' = [n |-> KabschStep(V, W), d |-> 1] /\ phase' = "aligned" /\ UNCHANGED <<H, V, W>>
+         /\ IF Emit THEN PrintT("H|" \o ToString(H)) ELSE TRUE
 Next == PickFirst \/ PickRest \/ Certify \/ PickV \/ PickSVD \/ Align
 Spec == Init /\ [][Next]_vars
 
